@@ -25,6 +25,10 @@ struct Bh {
     max_panics: usize,
     /// the executor may poll woken callers late (this many ticks may pass first)
     late_ticks: usize,
+    /// shave this many microseconds (< 1000) off max_wait: a sub-millisecond part in the
+    /// configured duration. tokio's timers fire at the next millisecond boundary, so the
+    /// rejection is still due at first poll + max_wait (in whole ms).
+    shave_us: u64,
 }
 
 struct X {
@@ -72,7 +76,7 @@ impl Scenario for Bh {
         self.prop
     }
     fn label(&self) -> String {
-        format!("bulkhead max={} max_wait={:?} callers={}{}", self.max, self.max_wait, self.callers, if self.late_ticks > 0 { " late-polls" } else { "" })
+        format!("bulkhead max={} max_wait={:?} callers={}{}{}", self.max, self.max_wait, self.callers, if self.late_ticks > 0 { " late-polls" } else { "" }, if self.shave_us > 0 { format!(" minus {}us", self.shave_us) } else { String::new() })
     }
     fn callers(&self) -> usize {
         self.callers
@@ -85,7 +89,7 @@ impl Scenario for Bh {
         b = match self.max_wait {
             None => b,
             Some(0) => b.reject_when_full(),
-            Some(ms) => b.max_wait_duration(Duration::from_millis(ms)),
+            Some(ms) => b.max_wait_duration(Duration::from_micros(ms * 1000 - self.shave_us)),
         };
         let layer = b.build();
         let svc = layer.layer(GatedInner::new(w.inner.clone()));
@@ -292,15 +296,20 @@ fn configs(prop: &'static str, tier: Tier) -> Vec<Bh> {
                 max_drops: tier.pick(2, 3),
                 max_panics: 1,
                 late_ticks: 0,
+                shave_us: 0,
             });
         }
+    }
+    // waits with a sub-millisecond part: 0.5 ms and 19.75 ms
+    for (max_wait, shave_us) in [(1u64, 500u64), (20, 250)] {
+        v.push(Bh { prop, max: 1, max_wait: Some(max_wait), callers: 3, max_ticks: tier.pick(3, 4), max_drops: 1, max_panics: 0, late_ticks: 0, shave_us });
     }
     // a late executor: woken callers (permit handed over, wait deadline passed) are polled up to two ticks late
     for (max, max_wait) in [(1usize, Some(20u64)), (1, None), (2, Some(20))] {
         if tier == Tier::Quick && max == 2 {
             continue;
         }
-        v.push(Bh { prop, max, max_wait, callers: 3, max_ticks: tier.pick(4, 5), max_drops: tier.pick(1, 2), max_panics: tier.pick(0, 1), late_ticks: 2 });
+        v.push(Bh { prop, max, max_wait, callers: 3, max_ticks: tier.pick(4, 5), max_drops: tier.pick(1, 2), max_panics: tier.pick(0, 1), late_ticks: 2, shave_us: 0 });
     }
     v
 }
